@@ -3,7 +3,7 @@ import json, os
 from fractions import Fraction
 from . import core
 
-SECTIONS = ["RateLimiter", "Archiver"]
+SECTIONS = ["RateLimiter", "RateProg", "Archiver"]
 LEVEL = "proof"
 RULE = ("event sequences (<= 60 events: acquire attempt / failure(status) / success) with boundary-rich dyadic timings against the real "
         "tokenBucket under an injected clock, capacities 1..10, configured rates 1/10..10 (also below 0.5/s), long failure streaks (up to "
